@@ -10,6 +10,9 @@ pub mod c02;
 pub mod c03;
 pub mod c04;
 pub mod c05;
+pub mod c06;
+pub mod c0607;
+pub mod c07;
 pub mod c08;
 pub mod c09;
 pub mod c09wire;
@@ -85,6 +88,8 @@ pub fn get(id: &str, tier: Tier) -> Option<Check> {
         "C03" => c03::check(tier),
         "C04" => c04::check(tier),
         "C05" => c05::check(tier),
+        "C06" => c06::check(tier),
+        "C07" => c07::check(tier),
         "C08" => c08::check(tier),
         "C09" => c09::check(tier),
         "C10" => c10::check(tier),
@@ -99,7 +104,7 @@ pub fn get(id: &str, tier: Tier) -> Option<Check> {
     })
 }
 
-pub const ALL: &[&str] = &["C02", "C03", "C04", "C05", "C08", "C09", "C10", "C11", "C13", "C14", "C15", "C16", "C18", "C20"];
+pub const ALL: &[&str] = &["C02", "C03", "C04", "C05", "C06", "C07", "C08", "C09", "C10", "C11", "C13", "C14", "C15", "C16", "C18", "C20"];
 
 /// Stream-local seed for scenario `idx`.
 pub fn sseed(ctx: &Ctx, stream: &str, idx: u64) -> u64 {
